@@ -13,8 +13,9 @@
 //	(iii) fault injection: every single Put/Delete/batch.Write of a history fails once, in a re-exec'd child process
 //	      (fault.go); exit through log.Crit is a crash; a hang is a deadlock; the final image is judged as in (ii).
 //
-// A bad prefix is reported with a signature that names the WINDOW it lies in (window.go), so that the two known windows
-// of the tree as written match their known-finding records and any other bad prefix is a VIOLATION.
+// A bad prefix is reported with a signature that names the WINDOW it lies in (window.go): the two windows the tree had
+// before fix commits 141a732 / deec78d are recognised by name (records now "fixed": a reappearance is a VIOLATION like
+// any other bad prefix).
 package main
 
 import (
@@ -398,8 +399,8 @@ func faultRuns(run *hx.Run) {
 	os.MkdirAll(dir, 0o755)
 	s := run.Seed*1000 + 900
 	scs := []Scenario{
-		{Name: "fa", TreeSeed: s + 1, N: 10, Branchy: 40, Cache: "archive", OrderSeed: s, SetHeadTo: -1, Contracts: true},
-		{Name: "fp", TreeSeed: s + 2, N: 9, Branchy: 40, Cache: "pruning", OrderSeed: s, SetHeadTo: -1, StopMid: true},
+		{Name: "fa", TreeSeed: s + 1, N: 8, Branchy: 40, Cache: "archive", OrderSeed: s, SetHeadTo: -1, Contracts: true},
+		{Name: "fp", TreeSeed: s + 2, N: 7, Branchy: 40, Cache: "pruning", OrderSeed: s, SetHeadTo: -1, StopMid: true},
 	}
 	if run.Thorough() {
 		for k := uint64(0); k < 6; k++ {
